@@ -2,6 +2,8 @@
 import contextlib
 import io
 import math
+import os
+import sys
 import warnings
 
 import numpy as np
@@ -10,11 +12,12 @@ from . import common
 from .common import Corr, f2hex, hex2f, flist
 
 ID = "C19"
-LEAN_MODULES = ["TempestVerif.Props.C19"]
-RULE = ("regime T (fit-T): generated data sets, d=1..6; 80%: n in [4d,200], laws gauss / heavy (t with 2,3,5 dof) / skew (lognormal) / "
-        "contam (5% outliers x20), random mixing matrix (cond <= ~30), per-coordinate scales 10^[-3,3] and shifts; 20%: degenerate sets "
-        "(n >= 2: at most d distinct points duplicated, points in a proper affine subspace, a constant coordinate, n = d+1 or d+2, all "
-        "rows identical); random tolerance in {1e-6,1e-3,1e-9} and max_iter in {100 (60%),1,2,3,5}; in 10% of the cases a fault is "
+LEAN_MODULES = ["TempestVerif.Props.C19", "TempestVerif.Props.C19Nu", "TempestVerif.Props.C19Twin", "TempestVerif.Props.C19Modes"]
+RULE = ("regime T (fit-T): generated data sets, d=1..8; 75%: n in [4d,200], laws gauss / heavy (t with 2,3,5 dof) / skew (lognormal) / "
+        "contam (5% outliers x20), random mixing matrix (cond <= ~30), per-coordinate scales 10^[-3,3] and shifts; 5%: 'spike' (one point "
+        "carrying 30-95% of the sample: the resampled form of a heavily weighted particle, where opt_nu's bracket has no sign change); 20%: "
+        "degenerate sets (n >= 2: at most d distinct points duplicated, points in a proper affine subspace, a constant coordinate, n = d+1 or "
+        "d+2, all rows identical); random tolerance in {1e-6,1e-3,1e-9} and max_iter in {100 (60%),1,2,3,5}; in 10% of the cases a fault is "
         "injected into one call of opt_nu's bisect (a ValueError, or the value -dim that zeroes every weight so that new_Sigma = 0 is "
         "rejected by the Cholesky test). The real fit_mvstud runs with scipy.optimize.bisect, np.linalg.solve and np.linalg.cholesky "
         "observed through proxy modules installed in tempest.student only (the proxies see the exceptions the real code catches); the "
@@ -27,25 +30,58 @@ RULE = ("regime T (fit-T): generated data sets, d=1..6; 80%: n in [4d,200], laws
         "regime dof (dof-fallback): ModeStatistics.from_particles/from_global with "
         "tempest.modes.fit_mvstud stubbed to return inf / nan / finite dof and np.random.choice on a tape; the data handed to "
         "the fit must be u[tape] exactly and degrees_of_freedom must equal the Dof model bit-for-bit. Non-trivial = some mode had "
-        "a non-finite dof.")
-MODELLED = ["opt_nu (scipy.special.psi + scipy.optimize.bisect on [1e-300, 1e6], incl. the sign test that yields inf) is NOT modelled: "
-            "what it did in every iteration (value / inf / raised ValueError) is recorded from the real run and fed to the model as a tape",
+        "a non-finite dof.  "
+        "bisect-F / bisect-Q: scipy.optimize.bisect itself on 14 families of functions (the opt_nu bracket [1e-300,1e6], cubics, no sign "
+        "change, zero at an end point, exact hit of a dyadic midpoint, NaN at the k-th evaluation, step functions, values whose product "
+        "underflows, small maxiter (RuntimeError), custom xtol/rtol, reversed bracket, infinite values, -0.0 plateaus); the model gets the "
+        "table of values the real call saw and must return the same kind / root bits / sequence of evaluation points. Non-trivial = the "
+        "loop was entered or the call failed.  optnu-F / func0-T: real fits (the four laws, spike, degenerate; d=1..8) run under "
+        "sys.setprofile, which delivers the arguments and return values of the nested functions opt_nu and func0: six opt_nu calls per "
+        "fit are replayed bit-exactly from func0's recorded values (nu_max test, bracket, bisect, mapping of failures), and six values of "
+        "func0 per call are recomputed by the Float model (special.psi supplied as a table) to 1e-11 relative to the sum of |terms|.  "
+        "modes-F: real from_global / from_particles (K=1..3 clusters, non-contiguous raw labels, heavy-tailed weights, resample_factor "
+        "default/1/2/3, fallback default or configured) under np.random.seed with the REAL legacy np.random.choice and the REAL fit_mvstud "
+        "(observed): the model draws from the uniforms of the same seeded stream and must hand every fit the same rows bit for bit; fitted "
+        "modes to 1e-8 of scale, degrees of freedom after the fallback exact.  trainer-dof-paths: real Trainer.run on a real StateManager, "
+        "beta in {0, >0}, clustering on/off, cluster_every, iter, _clusterer_fitted and DOF_FALLBACK (default / configured) varied, fit stubbed "
+        "to inf / nan / finite; branch and returned ModeStatistics must equal the model bit for bit. Non-trivial = dummy branch or a "
+        "non-finite dof.  kernel-handoff: real Sampler runs (tpCN, d=2/3, clustering on/off) in which the nu returned by the real fit is "
+        "overridden by inf / nan on a schedule; oracle on the dof array the runner holds and on the shape argument of every "
+        "np.random.gamma call.  property-T: the statement's own oracle on the real fit for d=1..8, n>=4d, four laws, scalings 2^[-20,20], "
+        "shifts, permutations; degenerate sets; two (quick) / eight (thorough) recovery cases with n=20000.")
+MODELLED = ["special.psi (scipy's digamma) is a PARAMETER of the model of func0 / opt_nu: every theorem holds for every function psi; in the "
+            "Float replays its values are supplied as a table read from scipy",
+            "scipy.optimize.bisect (C routine + _wrap_nan_raise + results_c) is modelled statement by statement (Model/StudentNu.lean: bisect, "
+            "bisectLoop; the update test is signbit(fm) == signbit(fa), as the installed scipy (1.18) behaves — the test fm*fa >= 0 of older sources misfires when the product underflows "
+            "and suite bisect-F refutes it); tied to the installed scipy bit for bit by bisect-F / bisect-Q, not proved about its source",
+            "np.log in func0 is Real.log in the theorems and Float.log in the replay (func0-T: tolerance); np.sum is the sequential sum there",
             "np.linalg.solve (LAPACK LU with partial pivoting; raises only on an exactly zero pivot) is modelled by the Gauss-Jordan inverse "
             "without pivoting (fails on a pivot that is not > 0); np.linalg.cholesky succeeding is modelled by all Gauss-Jordan pivots being "
-            "> 0: the same criteria in exact arithmetic, agreement in floating point only away from singular matrices (near-ties otherwise); "
-            "numpy's cholesky does not raise on NaN input whereas the twin rejects NaN -- NaN matrices are not generated",
-            "np.median / np.cov / np.var / np.dot (pairwise and BLAS summation orders) are modelled by sequential sums: tolerance",
-            "the theorems (Props/C19.lean) are about the matrix form over the reals of the same formulas as the executable list twin "
-            "(Model/Student.lean): one loop iteration of the twin is proved equal to the matrix iteration (C19_twin_step, given that the "
-            "twin's Gauss-Jordan inverse is the inverse); initialisation, stop rule, exits and loop control of the two forms are related by inspection",
-            "recovery of the generating parameters of large t samples is not proved: fixed-seed witness F19 + loose sanity check in search"]
+            "> 0. PROVED (Lemmas/GaussJordan.lean): in exact arithmetic the model's inverse inverts every positive definite matrix, and on a "
+            "positive semidefinite matrix it answers iff the matrix is positive definite — so on every matrix the loop meets the two criteria "
+            "are 'singular' and 'not positive definite'. Agreement with LAPACK in floating point only away from singular matrices "
+            "(near-ties otherwise); numpy's cholesky does not raise on NaN input whereas the twin rejects NaN -- NaN matrices are not generated",
+            "np.median / np.cov / np.var / np.dot (pairwise and BLAS summation orders) are modelled by merge sort + middle element and by "
+            "sequential sums: tolerance in fit-T. The median's properties (inside [min,max], affine-equivariant for every real factor) are "
+            "proved of the model's median, not assumed",
+            "np.random.choice(p=...) is numpy's legacy algorithm (Model.Resample.multinomial) on the uniforms of the seeded global stream, np.sum "
+            "its pairwise summation (Model.Resample.npSum): bit-exact in modes-F",
+            "Trainer.run: trim_weights and the clusterer are outside (C20 / C14 / C15): the model takes the (u, weights, labels) the constructor "
+            "receives; the clusterer is a recording double in trainer-dof-paths and the real one in kernel-handoff",
+            "the theorems of Props/C19.lean are about a matrix form over the reals; C19_twin_fit (Props/C19Twin.lean) proves that the executable "
+            "list model Model.Student.fitF at the reals — initialisation, median, opt_nu/bisect, Gauss-Jordan solve and Cholesky test, loop "
+            "control — returns exactly the list form of that matrix-level trace for every data set with n >= 2: no relation 'by inspection' is left",
+            "recovery of the generating parameters of large t samples is not proved (statistical consistency of the MLE): property-T runs a "
+            "loose fixed-seed check every run, fixed-seed witness F19 in the corpus"]
 ASSUMPTIONS = ["n >= 2 and finite data; positive definiteness of every iterate additionally needs non-degenerate data (not contained in an "
-               "affine hyperplane); for degenerate data the theorems give: location in the box, symmetric positive semidefinite scale, and "
-               "positive definite unless the initial matrix is singular (then the initial state and nu = 20 are returned)",
-               "opt_nu answers in (0, inf] when it answers (contract of scipy's bisection bracket), np.median is affine-equivariant and lies in "
-               "[min, max] (hypotheses hopt / hmed / hmedbox of the theorems)",
-               "in exact arithmetic np.linalg.solve raises iff Sigma is singular and np.linalg.cholesky raises iff new_Sigma is not positive definite",
-               "the configured dof_fallback is a finite number"]
+               "affine hyperplane); for degenerate data the theorems give: location in the box, symmetric positive semidefinite scale, "
+               "positive definite unless the initial matrix is singular (then the initial state and nu = 20 are returned), and at most one "
+               "accepted update (C19_degenerate_at_most_one_update)",
+               "H_lapack: in exact arithmetic np.linalg.solve raises iff Sigma is singular and np.linalg.cholesky raises iff new_Sigma is not "
+               "positive definite (the model's Gauss-Jordan criteria are PROVED equivalent to these on positive semidefinite matrices; that "
+               "LAPACK meets them is checked by fit-T away from rcond < 1e-6)",
+               "IEEE rounding is not covered by any theorem (exact real arithmetic); bridged by the Float replays",
+               "the configured dof_fallback is a finite number (config.DOF_FALLBACK = 1e6 in the shipped wiring: checked by kernel-handoff)"]
 
 LAWS = ("gauss", "heavy", "skew", "contam")
 
@@ -120,7 +156,7 @@ def gen_degenerate(seed, d, n, kind):
     return np.ascontiguousarray(x, dtype=float)
 
 
-def run_real(data, tol=1e-6, maxit=100, observe=True, fail_at=None, fail_kind="raise"):
+def run_real(data, tol=1e-6, maxit=100, observe=True, fail_at=None, fail_kind="raise", profile=False, call=None):
     """real fit_mvstud with every iteration observed: the (Sigma, diffs) handed to np.linalg.solve (and whether it
     raised), what opt_nu's bisect did (value / raised; `fail_at=j` injects a ValueError into the j-th bisect call, as
     scipy raises it for a bracket without sign change), the matrix handed to np.linalg.cholesky (and whether it raised).
@@ -164,6 +200,25 @@ def run_real(data, tol=1e-6, maxit=100, observe=True, fail_at=None, fail_kind="r
         its[-1]["chol_ok"] = True
         return L
 
+    # `profile=True`: every call of the nested functions opt_nu / func0 is observed through sys.setprofile (arguments from the
+    # frame, the value from the return event): what func0 returned at which nu, the delta_iobs each opt_nu call was handed and
+    # what it returned (None = it raised)
+    calls = []        # one dict per opt_nu call: {"delta": array, "evals": [(nu, f)], "ret": float | None}
+    src = os.path.realpath(st.__file__)
+
+    def prof(frame, event, arg):
+        co = frame.f_code
+        if co.co_name == "opt_nu" and os.path.realpath(co.co_filename) == src:
+            if event == "call":
+                calls.append({"delta": np.array(frame.f_locals["delta_iobs"], dtype=float, copy=True), "evals": [], "ret": None,
+                              "open": True})
+            elif event == "return" and calls and calls[-1].get("open"):
+                calls[-1]["ret"] = None if arg is None else float(arg)
+                calls[-1]["open"] = False
+        elif event == "return" and co.co_name == "func0" and os.path.realpath(co.co_filename) == src and calls:
+            if arg is not None:
+                calls[-1]["evals"].append((float(frame.f_locals["nu"]), float(arg)))
+
     buf = io.StringIO()
     with contextlib.ExitStack() as es:
         if observe:
@@ -172,7 +227,17 @@ def run_real(data, tol=1e-6, maxit=100, observe=True, fail_at=None, fail_kind="r
         es.enter_context(contextlib.redirect_stdout(buf))
         es.enter_context(warnings.catch_warnings())
         warnings.simplefilter("ignore")
-        mu, S, nu = st.fit_mvstud(np.array(data, dtype=float), tolerance=tol, max_iter=maxit)
+        if profile:
+            old_prof = sys.getprofile()
+            sys.setprofile(prof)
+        try:
+            if call is not None:
+                mu, S, nu = call()
+            else:
+                mu, S, nu = st.fit_mvstud(np.array(data, dtype=float), tolerance=tol, max_iter=maxit)
+        finally:
+            if profile:
+                sys.setprofile(old_prof)
     assert st.np is np and st.optimize is optimize
     nu = float(nu)
     if its and its[-1]["ev"] is None:
@@ -188,7 +253,7 @@ def run_real(data, tol=1e-6, maxit=100, observe=True, fail_at=None, fail_kind="r
     else:
         stop = "maxit" if warned else "conv"
     return {"mu": np.asarray(mu, dtype=float), "S": np.atleast_2d(np.asarray(S, dtype=float)), "nu": nu,
-            "its": its, "warned": warned, "stop": stop,
+            "its": its, "warned": warned, "stop": stop, "optnu_calls": calls,
             "tape": [t["ev"] for t in its if t["ev"] != "notpd"],
             "nus": [t["ev"] for t in its if isinstance(t["ev"], float)],
             "solves": [(t["S"], t["D"]) for t in its]}
@@ -323,9 +388,9 @@ def _check_fit_case(c, data, tol, maxit, line, ans, r, degenerate):
     c.count("updates", max(0, len(real_states) - 1))
 
 
-def _fit_cases(rng, count, dmax=6):
+def _fit_cases(rng, count, dmax=8):
     for t in range(count):
-        d = rng.choice([1, 1, 2, 2, 2, 3, 3, 3, 4, 5, dmax])
+        d = rng.choice([1, 1, 2, 2, 2, 3, 3, 3, 4, 5, 6, 7, dmax])
         seed = rng.getrandbits(40)
         tol = rng.choice([1e-6, 1e-6, 1e-6, 1e-3, 1e-9])
         maxit = rng.choice([100, 100, 100, 100, 100, 100, 1, 2, 3, 5])
@@ -335,6 +400,9 @@ def _fit_cases(rng, count, dmax=6):
             law = DEGEN[(t // 5) % len(DEGEN)]
             n = (d + rng.randint(1, 2)) if law == "tiny_n" else rng.randint(2, 40)
             n = max(n, 2)
+        elif t % 20 == 7:
+            law = "spike"
+            n = rng.randint(4 * d + 4, 120)
         else:
             law = LAWS[t % 4]
             n = rng.randint(4 * d, 200) if rng.random() < 0.8 else 4 * d + rng.randint(0, 3)
@@ -342,6 +410,9 @@ def _fit_cases(rng, count, dmax=6):
 
 
 def make_data(seed, d, n, law):
+    if law == "spike":
+        from . import c19b
+        return c19b.gen_spike(seed, d, n)
     return gen_degenerate(seed, d, n, law) if law in DEGEN else gen_data(seed, d, n, law)
 
 
@@ -493,7 +564,10 @@ def correspond_dof(tier):
 
 
 def correspond(tier):
-    return [correspond_fit(tier), correspond_dof(tier)]
+    from . import c19b
+    return ([c19b.correspond_constants(tier), correspond_fit(tier), correspond_dof(tier), c19b.correspond_bisect(tier), c19b.correspond_bisect_q(tier)] + c19b.correspond_optnu(tier)
+            + [c19b.correspond_modes(tier), c19b.correspond_trainer(tier), c19b.correspond_handoff(tier),
+               c19b.correspond_property(tier)])
 
 
 # ------------------------------------------------------------------------------------------- property oracle (real code)
@@ -645,6 +719,12 @@ def recovery(seed, nu_true, n=20000, d=2):
 
 def _oracle_case(case):
     kind = case["kind"]
+    if kind == "trainer":
+        from . import c19b
+        return c19b.trainer_oracle(case["trainer_case"])
+    if kind == "handoff":
+        from . import c19b
+        return c19b.handoff_oracle(case["handoff_cfg"])
     if kind == "dof":
         return dof_oracle(hex2f(case["dof_hex"]), case["fb"])
     if kind == "recovery":
@@ -696,6 +776,22 @@ def search(tier, hints):
 
     # 1. inputs on which the correspondence disagreed
     for h in hints:
+        if "trainer_case" in h:
+            if consider({"kind": "trainer", "trainer_case": h["trainer_case"]}):
+                return found
+            continue
+        if "handoff_cfg" in h:
+            if consider({"kind": "handoff", "handoff_cfg": h["handoff_cfg"]}):
+                return found
+            continue
+        if h.get("kind") == "recovery":
+            if consider({"kind": "recovery", "seed": h["seed"], "nu_true": h["nu_true"], "d": h.get("d", 2)}):
+                return found
+            continue
+        if h.get("kind") == "equiv" and "perm" in h:
+            if consider({k: h[k] for k in ("kind", "data_hex", "shape", "perm", "pw", "shift")}):
+                return found
+            continue
         if "data_hex" in h and "shape" in h:
             n, d = h["shape"]
             base = {"data_hex": h["data_hex"], "shape": [n, d]}
@@ -712,11 +808,15 @@ def search(tier, hints):
             for v in h["dofs"]:
                 if consider({"kind": "dof", "dof_hex": f2hex(float(v)), "fb": h["fb"]}):
                     return found
-    # 2. dof fallback
+    # 2. dof fallback: the two constructors directly, every path of Trainer.run, the hand-off to the kernel in real runs
     for v in (math.inf, math.nan, 3.5, 1e6, 1e300):
         for fb in (1e6, 7.5):
             if consider({"kind": "dof", "dof_hex": f2hex(v), "fb": fb}):
                 return found
+    from . import c19b
+    for case in c19b.sweep_cases(tier):
+        if consider(case):
+            return found
     # 3. never raises on degenerate / barely determined finite data, d = 1..8, n >= 2
     for t in range(200 if tier == "quick" else 4000):
         d = 1 + t % 8
